@@ -87,8 +87,9 @@ Definition parse_int (cs : list nat) : res nat :=
   end.
 
 (* QuantifierToken.from_match + __init__ *)
+(* `match.group(i).strip()` (repaired code): a bound that is empty or consists of blanks only is an omitted bound *)
 Definition parse_bound (cs : list nat) : res (option nat) :=
-  match cs with
+  match strip cs with
   | [] => Ok None
   | _ => bind (parse_int cs) (fun n => Ok (Some n))
   end.
